@@ -196,7 +196,12 @@ def judge(p, ctx, fsys, fm, A, b_top, frame, consistent):
         ctx.count("square-system")
     active = False
     if method == "lsq_linear":
-        if not consistent:
+        # consistent as ASSEMBLED: a non-negative candidate with zero residual exists for forsys' default
+        # formulation of this very matrix (a mirrored tangent of known finding D1 makes an equilibrium tissue's system
+        # inconsistent)
+        Md, bd = infer.augment(A, b_top)
+        xd = reference_nnls(Md, bd.round(3))
+        if not consistent or xd is None or objective(Md, bd.round(3), xd) > 1e-14 * float(bd @ bd):
             ctx.count("lsq_linear-inconsistent-not-judged")
             return "unjudged"
         x = rec["xres"]
@@ -244,7 +249,7 @@ def judge(p, ctx, fsys, fm, A, b_top, frame, consistent):
             ctx.exclude_known("D27")
             ctx.count("lsq-stuck-on-bound(D27)")
             return "known"
-        if gap > 1e-3 * f_ref + 1e-8 * bb:
+        if gap > 1e-3 * f_ref + 1e-7 * bb:
             return ctx.violation("lsq-not-optimal", p, observed=f_rep, expected=f_ref,
                                  detail={"gap": gap, "path": path, "min_T": float(vals.min()), "stuck_on_bound": stuck})
     else:
